@@ -16,7 +16,7 @@
 (* C12  faults are errors, output stays a prefix    (ObsRead/Write, End)   *)
 (* C02  verdict and bytes independent of supply     (End, `verdict`)       *)
 (***************************************************************************)
-EXTENDS Integers, Sequences, TLC
+EXTENDS Integers, Sequences, FiniteSets, TLC
 
 CONSTANTS LagBound,      \* C05: 2
           Devs,          \* recorded deviations of the code that trace validation may excuse (KNOWN_FINDINGS.txt)
@@ -95,6 +95,7 @@ ObsRead(req, got, dBefore, dAfter) ==
 (***************************************************************************)
 \* YAML input that holds no document (empty, or only comments): given as a slice, serde_yaml
 \* yields one "void" document and xt returns an error; given as a reader xt yields nothing.
+VerdictMemory == 256
 VoidDocumentCase(c) == "yaml_void" \in Devs /\ c.class = "yaml_void" /\ c.mode = "slice" /\ c.from = "yaml"
 Dev_YamlSliceVoidDocument(c) == VoidDocumentCase(c) /\ PrintT(<<"DEVIATION", "yaml_void", c.mode>>)
 \* documents a call presents to the target: under the deviation the void document IS one (a null), so a
@@ -172,7 +173,11 @@ End(res, key, digest, cmp, readMsg, fEnd, recOk) ==   \* fEnd: whole frames acce
                 /\ call.class \in Devs                                   \* a recorded deviation, for exactly this input class
                 /\ PrintT(<<"DEVIATION", call.class, key>>)
           /\ UNCHANGED verdict
-     ELSE /\ verdict' = (key :> [res |-> res, digest |-> digest]) @@ verdict
+     \* (cases that share a key are recorded next to each other: the memory keeps the most recent
+     \* VerdictMemory keys, which bounds the cost of validating traces of millions of records)
+     ELSE /\ verdict' = IF Cardinality(DOMAIN verdict) >= VerdictMemory
+                        THEN (key :> [res |-> res, digest |-> digest])
+                        ELSE (key :> [res |-> res, digest |-> digest]) @@ verdict
   /\ status' = "idle"
   /\ docsSeen' = IF to = "toml" THEN Min(2, docsSeen + Presented(call)) ELSE docsSeen
   /\ written' = IF call.known THEN fEnd ELSE written
